@@ -1,0 +1,37 @@
+//go:build verif
+
+package proto
+
+import (
+	"sync/atomic"
+
+	"github.com/go-faster/errors"
+)
+
+// Verification hooks (build tag "verif" only): extra, earlier caps for rows and
+// string lengths, so that hostile-input checks can bound by-design allocations.
+// Zero means "hook inert". The library's own checks are never replaced.
+var (
+	verifRowsCap atomic.Int64
+	verifStrCap  atomic.Int64
+)
+
+// VerifSetCaps sets additional caps (0 disables).
+func VerifSetCaps(rows, strLen int) {
+	verifRowsCap.Store(int64(rows))
+	verifStrCap.Store(int64(strLen))
+}
+
+func verifCheckRows(n int) error {
+	if c := verifRowsCap.Load(); c > 0 && int64(n) > c {
+		return errors.Errorf("verif: %d rows exceed the test cap %d", n, c)
+	}
+	return nil
+}
+
+func verifCheckStrLen(n int) error {
+	if c := verifStrCap.Load(); c > 0 && int64(n) > c {
+		return errors.Errorf("verif: string length %d exceeds the test cap %d", n, c)
+	}
+	return nil
+}
